@@ -17,7 +17,7 @@ from typing import List
 from typing import Tuple
 
 KEYS = ("a", "b", "c", "d")
-STRINGS = ("", "a", "ab", "abc", "b", "x", "é", "a\nb", "&", "a&b", "|", "~")
+STRINGS = ("", "a", "ab", "abc", "b", "x", "é", "a\nb", "&", "a&b", "|", "~", "[ ]", "{  }", "a [ ] b", ", ", "a\"b", "\\")
 
 
 def build(spec: Dict[str, Any]) -> Any:
